@@ -31,6 +31,14 @@ impl<'ast> syn::visit::Visit<'ast> for Mutated {
         }
         syn::visit::visit_expr_method_call(self, m);
     }
+    fn visit_expr_reference(&mut self, r: &'ast ExprReference) {
+        if r.mutability.is_some() {
+            if let Some(n) = place_root(&r.expr) {
+                self.out.push(n);
+            }
+        }
+        syn::visit::visit_expr_reference(self, r);
+    }
 }
 
 fn place_root(e: &Expr) -> Option<String> {
@@ -40,6 +48,8 @@ fn place_root(e: &Expr) -> Option<String> {
         Expr::Index(i) => place_root(&i.expr),
         Expr::Paren(p) => place_root(&p.expr),
         Expr::Reference(r) => place_root(&r.expr),
+        // `x.as_mut()`: a view of the same place
+        Expr::MethodCall(m) if m.method == "as_mut" && m.args.is_empty() => place_root(&m.receiver),
         _ => None,
     }
 }
@@ -115,7 +125,7 @@ impl<'a> LTr<'a> {
                 }
                 UnOp::Deref(_) => {
                     let n = path_ident(&u.expr).ok_or("deref")?;
-                    if self.deref_var.as_deref() == Some(&n) {
+                    if self.deref_var.as_deref() == Some(&n) || self.deref_ro.contains(&n) {
                         Ok((n, self.int("UInt8")))
                     } else {
                         Err("deref of a reference".into())
@@ -278,6 +288,12 @@ impl<'a> LTr<'a> {
     fn buf_arg(&mut self, a: &Expr) -> R<(String, WriteBack)> {
         let a = match a {
             Expr::Reference(r) => &*r.expr,
+            // `GenericArray::from_mut_slice(&mut x)`: the same bytes viewed as a block; its length
+            // assertion is part of the vocabulary of the method that receives the block
+            Expr::Call(c) if c.args.len() == 1 && matches!(&*c.func, Expr::Path(p) if path_segs(&p.path) == ["GenericArray", "from_mut_slice"]) => match &c.args[0] {
+                Expr::Reference(r) => &*r.expr,
+                other => other,
+            },
             other => other,
         };
         if let Expr::Index(ix) = a {
@@ -347,11 +363,33 @@ impl<'a> LTr<'a> {
                 return Ok(("()".into(), LTy::Unit));
             }
         }
+        // `place.as_mut().write_u128::<LittleEndian>(v)`: `Write for &mut [u8]` on a temporary view of the place
+        if name == "write_u128" && args.len() == 1 {
+            if let Expr::MethodCall(am) = &*m.receiver {
+                if am.method == "as_mut" && am.args.is_empty() {
+                    let p = self.place(&am.receiver)?;
+                    let le = m.turbofish.as_ref().map_or(false, |t| t.args.len() == 1 && matches!(&t.args[0], GenericArgument::Type(Type::Path(tp)) if path_last(&tp.path) == "LittleEndian"));
+                    if p.ty != LTy::Bytes || !le {
+                        return Err("write_u128 form".into());
+                    }
+                    let (v, _) = self.expr(args[0])?;
+                    let (r, b) = (self.fresh(), self.fresh());
+                    self.emit(format!("let ({r}, {b}) := Rs.L.sliceWriteAll {} (Rs.U128.toLE {v})", p.term()));
+                    self.store(&p, b)?;
+                    return Ok((r, LTy::Io(Box::new(LTy::Unit))));
+                }
+            }
+            return Err("write_u128 on something other than `place.as_mut()`".into());
+        }
         let (recv, rty) = match &recv_place {
             Some(p) => (p.term(), p.ty.clone()),
             None => self.expr(&m.receiver)?,
         };
         match (&rty, name.as_str()) {
+            (LTy::Io(inner), "expect") | (LTy::Io(inner), "unwrap") if args.len() == (name == "expect") as usize => {
+                let v = self.opt_tmp(&format!("Rs.IoRes.unwrap {recv}"));
+                return Ok((v, (**inner).clone()));
+            }
             (LTy::Bytes, "is_empty") if args.is_empty() => return Ok((format!("(Rs.isEmpty {recv})"), LTy::Bool)),
             (LTy::Bytes, "into_bytes") if args.is_empty() => return Ok((recv, LTy::Bytes)),
             (LTy::Bytes, "len") if args.is_empty() => return Ok((format!("(Rs.len {recv})"), self.int("UInt64"))),
@@ -377,6 +415,15 @@ impl<'a> LTr<'a> {
         }
         if let LTy::Ext(t) = &rty {
             if let Some((f, kind, ret)) = ext_method(t, &name) {
+                if kind == ExtKind::RefBuf {
+                    if args.len() != 1 {
+                        return Err("vocabulary call arity".into());
+                    }
+                    let (bv, wb) = self.buf_arg(args[0])?;
+                    let nb = self.opt_tmp(&format!("{f} {recv} {bv}"));
+                    self.write_back(wb, nb)?;
+                    return Ok(("()".into(), LTy::Unit));
+                }
                 if kind == ExtKind::MutBuf {
                     if args.len() != 1 {
                         return Err("vocabulary call arity".into());
@@ -415,14 +462,14 @@ impl<'a> LTr<'a> {
             if self.failed.contains(&key) {
                 return Err(format!("call of untranslated {key}"));
             }
+            if let Some(s) = self.lreg.fns.get(&key) {
+                return self.call_lfn(&format!("Gen.{t}.{name}"), s, Some((recv, recv_place)), &args);
+            }
             let mut av = vec![];
             for a in &args {
                 av.push(self.expr(a)?.0);
             }
             let argtxt: String = av.iter().map(|a| format!(" {a}")).collect();
-            if let Some(s) = self.lreg.fns.get(&key) {
-                return self.call_lfn(&format!("Gen.{t}.{name}"), s, Some((recv, recv_place)), &args, argtxt);
-            }
             if let Some(mi) = self.reg.methods.get(&key) {
                 if mi.fi.mode != Mode::Pure {
                     return Err(format!("call of {key} (not a pure function)"));
@@ -449,12 +496,14 @@ impl<'a> LTr<'a> {
     }
 
     /// call of another layer-mode function
-    fn call_lfn(&mut self, lean: &str, s: &LFnSig, recv: Option<(String, Option<Place>)>, args: &[&Expr], argtxt: String) -> R<(String, LTy)> {
+    fn call_lfn(&mut self, lean: &str, s: &LFnSig, recv: Option<(String, Option<Place>)>, args: &[&Expr]) -> R<(String, LTy)> {
+        if args.len() != s.params.len() {
+            return Err("call arity".into());
+        }
         let mut call = lean.to_string();
         if let Some((r, _)) = &recv {
             call += &format!(" {r}");
         }
-        call += &argtxt;
         // what the callee hands back besides the outcome
         let mut backs: Vec<WriteBack> = vec![];
         if s.self_kind == SelfKind::RefMut {
@@ -463,15 +512,12 @@ impl<'a> LTr<'a> {
         }
         for (a, (_, _, st)) in args.iter().zip(s.params.iter()) {
             if *st {
-                // the argument was translated as a value; find its place again
-                let a = match a {
-                    Expr::Reference(r) => &*r.expr,
-                    o => *o,
-                };
-                if let Expr::Index(_) = a {
-                    return Err("slice handed to a translated callee (use the callee's write-back)".into());
-                }
-                backs.push(WriteBack::Whole(self.place(a)?));
+                // a `&mut [u8]` argument: its value, and where the callee's version goes
+                let (v, wb) = self.buf_arg(a)?;
+                call += &format!(" {v}");
+                backs.push(wb);
+            } else {
+                call += &format!(" {}", self.expr(a)?.0);
             }
         }
         let res = self.fresh();
@@ -508,6 +554,12 @@ impl<'a> LTr<'a> {
                     call += &format!(" {}", self.expr(a)?.0);
                 }
                 return Ok((format!("({call})"), ret));
+            }
+        }
+        if segs.len() == 1 && !self.failed.contains(&last) {
+            // a translated free function
+            if let Some(s) = self.lreg.fns.get(&last) {
+                return self.call_lfn(&format!("Gen.{last}"), s, None, &args);
             }
         }
         if segs.len() == 1 && last == "Some" && args.len() == 1 {
@@ -551,14 +603,14 @@ impl<'a> LTr<'a> {
             if self.failed.contains(&key) {
                 return Err(format!("call of untranslated {key}"));
             }
+            if let Some(s) = self.lreg.fns.get(&key) {
+                return self.call_lfn(&format!("Gen.{ty}.{f}"), s, None, &args);
+            }
             let mut av = vec![];
             for a in &args {
                 av.push(self.expr(a)?.0);
             }
             let argtxt: String = av.iter().map(|a| format!(" {a}")).collect();
-            if let Some(s) = self.lreg.fns.get(&key) {
-                return self.call_lfn(&format!("Gen.{ty}.{f}"), s, None, &args, argtxt);
-            }
             if let Some(mi) = self.reg.methods.get(&key) {
                 if mi.fi.mode == Mode::Pure && !mi.mut_self {
                     let ret = mi.fi.ret.as_deref().map(lean_to_lty).unwrap_or(LTy::Unknown);
